@@ -329,7 +329,14 @@ func (s *indexKVStore) getOrCreateValue(bucketID uint32, key []byte,
 			return 0, false, false, err
 		}
 		if bucket != nil {
-			s.bucketCache.Add(bucketID, bucket)
+			// NOTE: only cache the bucket if it's loaded from current snapshot, else a bucket loaded from the old
+			// snapshot is put into cache after Flush purged the cache, then the keys of new snapshot cannot be found
+			// (same key gets another id).
+			s.lock.RLock()
+			if s.snapshot == snapshot {
+				s.bucketCache.Add(bucketID, bucket)
+			}
+			s.lock.RUnlock()
 		}
 	}
 	if bucket != nil {
